@@ -57,6 +57,7 @@ type LoopInfo struct {
 
 type FuncExec struct {
 	coverCalls    map[string]int // post-call feasibility probes issued per call site
+	curBindings   []Val          // bindings of the closure being called (for its contract's captured names)
 	pendingReplay *ReplayInfo
 	pk         *PkgCtx
 	fn         *ssa.Function
@@ -897,6 +898,12 @@ func (fx *FuncExec) execBlock(ps *pathState, blk *ssa.BasicBlock, pred *ssa.Basi
 			ps.loopSnap[li.ord] = st.snapshot() // state at the start of the current iteration (at_loop)
 			env = fx.specEnv(ps, pos, fx.loopVars(ps, li))
 			if li.spec != nil {
+				// `loop k assume` holds at the loop head of every iteration (an assumption, listed in the evidence)
+				for _, cl := range li.spec.Assume {
+					t := env.boolTerm(cl.Expr)
+					fx.noteSpecErr(env, cl)
+					st.assume(t)
+				}
 				for _, cl := range li.spec.Inv {
 					t := env.boolTerm(cl.Expr)
 					fx.noteSpecErr(env, cl)
